@@ -6,6 +6,7 @@ import (
 	"fmt"
 	"os"
 	"path/filepath"
+	"strconv"
 	"strings"
 	"sync"
 	"sync/atomic"
@@ -181,6 +182,7 @@ func driveC20Main(t *testing.T, out *vEmitter) {
 		}
 	}
 	vC20Watcher(t, out)
+	vC20WatcherOverflow(t, out)
 	out.Obs("usermap-stress", true, vL("stress", vI(2), vI(int64(nv)), vI(atomic.LoadInt64(&published)), vI(atomic.LoadInt64(&checks))))
 	out.Stat("usermap_reloads", int(atomic.LoadInt64(&published)))
 	out.Stat("usermap_validations", int(atomic.LoadInt64(&checks)))
@@ -189,6 +191,87 @@ func driveC20Main(t *testing.T, out *vEmitter) {
 
 func storeUserMap(um *UserMap, m *map[string]bool) {
 	atomic.StorePointer(&um.m, unsafe.Pointer(m)) // #nosec G103
+}
+
+// vC20WatcherOverflow: the watcher survives an error fsnotify reports.  While one reload is held up, the file receives
+// more non-coalescing events than the kernel's inotify queue holds (fs.inotify.max_queued_events): events are dropped
+// and the watcher is told so on its Errors channel.  After the backlog has drained, a real update of the file must
+// still come into force.
+func vC20WatcherOverflow(t *testing.T, out *vEmitter) {
+	queue := 16384
+	if b, err := os.ReadFile("/proc/sys/fs/inotify/max_queued_events"); err == nil {
+		if n, err := strconv.Atoi(strings.TrimSpace(string(b))); err == nil && n > 0 {
+			queue = n
+		}
+	}
+	if queue > 1<<18 {
+		out.Stat("c20_overflow_queue_too_large", 1)
+		return
+	}
+	name := vWriteFile("c20-overflow-emails", "old@example.com\n")
+	done := make(chan bool, 1)
+	defer func() { done <- true }()
+	var slow atomic.Bool
+	slow.Store(true)
+	entered := make(chan struct{}, 1)
+	release := make(chan struct{})
+	var reloads int64
+	validator := newValidatorImpl(nil, name, done, func() {
+		atomic.AddInt64(&reloads, 1)
+		if slow.CompareAndSwap(true, false) {
+			entered <- struct{}{}
+			<-release
+		}
+	})
+	w, err := os.OpenFile(name, os.O_WRONLY, 0o600)
+	if err != nil {
+		t.Fatal(err)
+	}
+	defer w.Close()
+	_, _ = w.WriteAt([]byte("old@example.com\n"), 0)
+	select {
+	case <-entered:
+	case <-time.After(5 * time.Second):
+		out.Stat("c20_watcher_silent", 1) // no file notifications in this environment: nothing to overflow
+		close(release)
+		return
+	}
+	for i := 0; i < queue+4096; i++ {
+		_, _ = w.WriteAt([]byte("old@example.com\n"), 0)
+		mode := os.FileMode(0o600)
+		if i%2 == 1 {
+			mode = 0o640
+		}
+		_ = w.Chmod(mode)
+	}
+	close(release)
+	// the backlog drains: wait until the reload count stands still
+	last, still := int64(-1), 0
+	for still < 6 {
+		time.Sleep(100 * time.Millisecond)
+		if n := atomic.LoadInt64(&reloads); n == last {
+			still++
+		} else {
+			last, still = n, 0
+		}
+	}
+	if err := os.WriteFile(name, []byte("new@example.com\n"), 0o600); err != nil {
+		t.Fatal(err)
+	}
+	ok := false
+	for deadline := time.Now().Add(8 * time.Second); time.Now().Before(deadline); time.Sleep(50 * time.Millisecond) {
+		if validator("new@example.com") && !validator("old@example.com") {
+			ok = true
+			break
+		}
+	}
+	out.Obs("usermap-watcher-overflow", true, vL("overflow", vI(int64(queue)), vI(atomic.LoadInt64(&reloads)), vBool(ok)))
+	out.Stat("c20_overflow_rounds", 1)
+	if !ok {
+		out.Violation("reload/final-contents-not-visible", "after all reloads completed an allow-list validation does not reflect the final contents",
+			map[string]interface{}{"driven_by": "file watcher", "history": fmt.Sprintf("one reload held up, %d write/chmod events (inotify queue %d: overflow reported to the watcher), backlog drained, file rewritten", 2*(queue+4096), queue),
+				"old_address_still_valid": validator("old@example.com"), "new_address_valid": validator("new@example.com"), "reloads_seen": atomic.LoadInt64(&reloads)})
+	}
 }
 
 // vC20Watcher: reloads driven by the real file watcher.  A large list is put in place by rename (as editors and
